@@ -708,6 +708,16 @@ fn c02(c: &mut Checker) {
 }
 
 fn c06(c: &mut Checker) {
+    // a fail-fast run first (totality only): whatever a stopped run might leave behind on this
+    // thread is then in the history of the keep-going runs that follow in the session
+    {
+        let mut cfg = c.cfg(Script::AllC);
+        cfg.err = ErrParty::JsonError;
+        let r = c.exec(&cfg, &|_| true);
+        let mut out = vec![];
+        rules::h_total(&r, &mut out);
+        c.record(out, &cfg, &r);
+    }
     for source in [Source::Sim, Source::Json] {
         if let Some((cfg, r, exp)) = model_run(c, source, &|_| true) {
             let mut out = vec![];
@@ -1150,6 +1160,7 @@ pub fn profile(prop: Prop, env: &Env) -> Profile {
             p.programs = pick(&|f| !f.tag_clash && !f.key_clash);
         }
         Prop::C02 => {
+            p.allow_special = true;
             allowed.exotic = true;
             allowed.nonfinite = true;
             allowed.collide = true;
